@@ -92,8 +92,10 @@ def gen_case(rng, t):
     if stream == 'valid':
         # weight mode and input dtypes cycle systematically so that every (fitgeom, weight mode, dtype) combination
         # occurs in every run
-        pr = G.problem(rng, geom, outliers=rng.choice([0, 0, 0, 1, 3]),
-                       wmode=['none', 'xy', 'uv', 'both'][(t // 32) % 4])
+        strip = geom in ('rscale', 'rshift') and t % 5 == 2
+        pr = G.problem(rng, geom, outliers=0 if strip else rng.choice([0, 0, 0, 1, 3]),
+                       wmode=['none', 'xy', 'uv', 'both'][(t // 32) % 4], style='strip' if strip else None,
+                       noise=rng.choice([0, 1]) if strip else None, n=rng.choice([6, 10, 20]) if strip else None)
     elif stream == 'special':
         # noise-free integer lattices under special-angle members of the family (finding F1/F12 inputs)
         n = rng.choice([2, 3, 5, 9]) if geom != 'general' else rng.choice([3, 5, 9])
@@ -153,7 +155,7 @@ def run(ck):
                  'parameters must not exceed the exact optimum by more than 2^-50*W*scale^2',
                  'rshift: the implementation\'s (cos, sin) must be a unit vector positively collinear with the exact '
                  'moment direction (theorem C06_rshift_optimal shows any such vector is optimal)',
-                 'reflection branch: either branch is accepted when |det| <= 2^-20*(|cxu*cyv|+|cxv*cyu|) '
+                 'reflection branch: either branch is accepted when |det| <= 2^-30*(|cxu*cyv|+|cxv*cyu|) '
                  '(both are optimal at det = 0, C06_rscale_optimal_any_branch)']
     rng = ck.rng
     N = ck.n(320, 6000)
